@@ -1510,6 +1510,9 @@ func (c *Client) callResourceChangedHandler(ctx context.Context, req *ResourceLi
 	if cs, ok := req.GetSession().(*ClientSession); ok {
 		cs.resourcesCache.invalidate()
 		cs.resourceTemplatesCache.invalidate()
+		// A resource may have been replaced or removed: what was read from it
+		// before is older than this notification too.
+		cs.readResourceCache.invalidate()
 	}
 	if h := c.opts.ResourceListChangedHandler; h != nil {
 		h(ctx, req)
